@@ -14,12 +14,12 @@ CHECKS = {
         text='Static: every elastic kernel is reduced to an exact power-product normal form and compared with the documented formula; every graph entry is one-step sound against the documented definition of its target (so all routes agree by induction); inverse pairs compose to the identity. The rounding bound is decided only as an operation-discipline rule (no add/sub, bounded op count, no narrowing cast), not measured.',
         note='trusts sa/scipp_model.py (semantics of ~70 scipp names), spec/formulas.py, positivity of physical quantities under sqrt; scipp.transform_coords not analysed', ref='3 C01'),
     'C05': dict(
-        level='other', technique='abstract interpretation to rational-function normal forms; guard-shape rule on where(cond, NaN, value)',
-        text='Static: the value arm of both inelastic kernels equals the documented formula; substituting the physical arrival time gives Ei-Ef identically; the NaN guard is the non-strict comparison on the same dt whose square is the only divisor; arms agree in unit/dtype; graph factories wire the right kernel.',
-        note='trusts scipp model table and the normal form; overflow near the smallest normal number not decided', ref='3 C05'),
+        level='other', technique='abstract interpretation to rational-function normal forms; guard-shape rule on where(cond, NaN, value); interval analysis of log-magnitudes of float32 intermediates',
+        text='Static: the value arm of both inelastic kernels equals the documented formula; substituting the physical arrival time gives Ei-Ef identically; the NaN guard is the non-strict comparison on the same dt whose square is the only divisor; arms agree in unit/dtype on every path; graph factories wire the right kernel; magnitude-interval rule (sa/magnitude.py): for Ei/Ef in 1e-3..1e4 meV given in meV/eV/J, lengths 0.1..1e3 m in angstrom..km and tof in ns..s no single-precision power-product intermediate leaves the normal range of float32 (found and fixed F14).',
+        note='trusts scipp model table and the normal form; the magnitude rule bounds power products only (sums are not bounded)', ref='3 C05'),
     'C07': dict(
         level='proof', technique='abstract interpretation over unit and dtype domains; exhaustive dtype grid by case split',
-        text='Static proof relative to the scipp model table: for symbolic input units the result unit is the documented one and all u(p) cancel; every to_unit obligation is dimensionally satisfiable; no raw number is re-labelled with an input unit; the dtype contract holds at every point of the dtype grid {f64,f32,i64(,i32)}^k (finite, enumerated).',
+        text='Static proof relative to the scipp model table: for symbolic input units the result unit is the documented one and all u(p) cancel; every to_unit obligation is dimensionally satisfiable; no raw number is re-labelled with an input unit; the dtype contract holds at every point of the dtype grid {f64,f32,i64(,i32)}^k (finite, enumerated); over the unit grid ns..s x angstrom..km x ueV..J and the physical input ranges no float32 power-product intermediate of a scalar conversion kernel leaves the normal range of float32 (R5).',
         note='trusted base: measured scipp 25.4 promotion table and unit algebra in sa/scipp_model.py, sa/units.py; same-unit preconditions of geometry kernels are a frozen table', ref='3 C07'),
 }
 
@@ -38,14 +38,14 @@ CHECKS.update({
         note='per-event application and preservation of weights/masks/order are scipp.transform_coords (not analysed)', ref='3 C06'),
     'C08': dict(
         level='other', technique='abstract interpretation to linear forms over vector atoms and non-commutative matrix words',
-        text='Static: Q components are the fields of (2pi/lambda)(e_i-e_f); pack/unpack are inverse order-preserving permutations; hkl=inv(R UB)Q/(2pi) so 2pi R UB hkl reduces to Q by word cancellation; UB=U B.',
+        text='Static: Q components are the fields of (2pi/lambda)(e_i-e_f); pack/unpack are inverse order-preserving permutations; hkl=inv(R UB)Q/(2pi) so 2pi R UB hkl reduces to Q by word cancellation; UB=U B; the kernels are total (no raising path for well-typed inputs, R6).',
         note='conditioning (accuracy for ill-conditioned B) is runtime and not decided', ref='3 C08'),
 })
 
 CHECKS.update({
     'C02': dict(
         level='other', technique='partial evaluation of the selection layer over the finite configuration space; Horn-clause derivability oracle',
-        text='Static, finite space enumerated: core/conversions.py and the graph factories are partially evaluated for every (origin, target, scatter) and coordinate subset with kernels uninterpreted and transform_coords modelled; success/RuntimeError and the named missing coordinate equal derivability under clauses written from the documented formulas; the mode decision table, graph-reported-is-graph-used and mode-coordinate-consumed rules hold. Quick enumerates the cone of influence of each target (monotone closure), thorough all 4x22x2x2048 configurations.',
+        text='Static, finite space enumerated: core/conversions.py and the graph factories are partially evaluated for every (origin, target, scatter) and coordinate subset with kernels uninterpreted and transform_coords modelled; success/RuntimeError and the named missing coordinate equal derivability under clauses written from the documented formulas; the mode decision table (also with unaligned energy coordinates: alignment flags are modelled), graph-reported-is-graph-used and mode-coordinate-consumed rules hold. Quick enumerates the cone of influence of each target (monotone closure), thorough all 4x22x2x2048 configurations.',
         note='trusts the three-line model of scipp.transform_coords and spec/convert_spec.py; values follow from the one-step soundness rules of C01/C03/C05', ref='3 C02'),
     'C09': dict(
         level='other', technique='interprocedural effect summaries (who-may-mutate, returns-alias-of) to a fixpoint over the call graph; object-identity interpretation of kernels',
@@ -86,7 +86,7 @@ CHECKS.update({
 CHECKS.update({
     'C16': dict(
         level='other', technique='abstract interpretation with an object model (classes, prefixes as concrete strings, symbolic parameters); symbolic substitution for symmetry and half-maximum',
-        text='Static: evaluated normal forms of Gaussian/Lorentzian/pseudo-Voigt/polynomial(deg 1..6)/composite equal the closed forms; each peak is symmetric about loc and takes half its peak value at loc +/- fwhm/2 with the FWHM the model itself reports; units follow the parameters; results are prefix-independent; missing/unknown/un-prefixed names are refused; with_prefix acts on a copy.',
+        text='Static: evaluated normal forms of Gaussian/Lorentzian/pseudo-Voigt/polynomial(deg 1..6)/composite equal the closed forms; each peak is symmetric about loc and takes half its peak value at loc +/- fwhm/2 with the FWHM the model itself reports; units follow the parameters; results are prefix-independent; missing/unknown/un-prefixed/foreign-prefixed names are refused; the result has the dtype of x for float32 and int64 x; with_prefix acts on a copy.',
         note='normalisation is a cited property of the closed forms; guess() not decided; scale >= 1e-15 assumed (clamp)', ref='3 C16'),
 })
 
@@ -132,7 +132,7 @@ CHECKS.update({
         note='numpy tofile/tobytes/frombuffer/fromfile, struct and io are modelled (sa/sqwio.py); found and fixed F12 (string lengths declared in characters)', ref='8'),
     'C13': dict(
         level='other', technique='abstract round trip through the IR (symbolic model -> serializer -> registered parser) and through the abstract byte file (builder -> bytes -> independent decoder / package reader); the term domain tracks the unit bare numbers are expressed in',
-        text='Static: unit-carrying metadata fields come back with the physical value supplied (writer unit == reader label), 1-based indices are undone, integer metadata is converted in float64; for pixel counts / chunk sizes below, equal and above each other and the row count, pixel p row r on disk is float32(row r of pixel p converted to the declared unit) as an exact term, metadata holds N and per-row (min, max); containers hold one shared object referenced once per run (1-based); run ids + 1, meV, rad, angstrom/deg and the declared histogram units and shape on disk; Sqw.read_data_block returns models equal to those supplied with units of the same dimension.',
+        text='Static: unit-carrying metadata fields come back with the physical value supplied (writer unit == reader label), 1-based indices are undone, integer metadata is converted in float64; for pixel counts / chunk sizes below, equal and above each other and the row count, pixel p row r on disk is float32(row r of pixel p converted to the declared unit) as an exact term, metadata holds N and per-row (min, max); containers hold one shared object referenced once per run (1-based); run ids + 1, meV, rad, angstrom/deg and the declared histogram units and shape on disk; Sqw.read_data_block returns models equal to those supplied with units of the same dimension, for direct and for indirect geometry (per-detector efix and 2-d en; found and fixed F13).',
         note='Horace compatibility and float formatting not decided', ref='8'),
     'C14': dict(
         level='other', technique='finite-domain evaluation of the quoting/layout decision code in the abstract interpreter with an independent CIF 1.1 lexer as oracle; witness-guided interpretation of the loop builders and of save_cif with a text sink; known-findings list',
@@ -144,7 +144,7 @@ CHECKS.update({
         note='round-trip of %.18e through numpy/C is trusted', ref='8'),
     'C17': dict(
         level='other', technique='witness-guided interpretation of peaks/_fit_peaks.py and _remove_peaks.py with recording stubs for the optimiser, the chi-square distribution and the fit models',
-        text='Static: with fewer points than parameters a window-too-narrow result is returned without consuming the data and a failing optimiser gives a failed result; over all combinations of violated requirements (on a non-uniform grid) _assess_fit returns success iff none is violated, otherwise names a violated one, never raising; fit_peaks returns one result per window in order fitted on the data inside the window and _fit_peak returns the first success in product order else the first candidate for all 16 patterns; the statistics are chi2/(n-k), 1-cdf, n ln(chi2/n)+2k as exact terms of the window data and the model at the returned parameters; automatic windows are clipped to the data range and the neighbour separation; remove_peaks subtracts exactly the successful peaks inside their windows from a copy.',
+        text='Static: with fewer points than parameters a window-too-narrow result is returned without consuming the data and a failing optimiser gives a failed result; over all combinations of violated requirements (on a non-uniform grid, incl. zero degrees of freedom) _assess_fit returns success iff none is violated, otherwise names a violated one, never raising; fit_peaks returns one result per window in order fitted on the data inside the window and _fit_peak returns the first success in product order else the first candidate for all 16 patterns; the statistics are chi2/(n-k), 1-cdf, n ln(chi2/n)+2k as exact terms of the window data and the model at the returned parameters; automatic windows are clipped to the data range and the neighbour separation (also for overlapping windows); remove_peaks subtracts exactly the successful peaks inside their windows from a copy.',
         note='optimiser outcomes are not decided', ref='8'),
     'C18': dict(
         level='other', technique='abstract interpretation (rotation vector, geometry kernels, transmission fraction); witness-guided interpretation with recording stubs (scaling/rotation/translation of a symbolic rule, transmission map); constant folding of the reference rules with numpy; effect summaries incl. memoising wrappers',
